@@ -200,7 +200,10 @@ OPS = {
                    wrong={"sympy.Mod(_0, _1)": "sympy.Mod takes the sign of the divisor, C fmod that of the dividend: fmod(-1, 3) = -1 but Mod(-1, 3) = 2",
                           "_0 - _1 * sympy.trunc(_0 / _1)": "sympy.trunc is polynomial truncation trunc(f, p), not rounding toward zero: the call raises TypeError",
                           "_0 - sympy.trunc(_0 / _1) * _1": "sympy.trunc is polynomial truncation trunc(f, p), not rounding toward zero: the call raises TypeError",
-                          "_0 % _1": "sympy % is Mod (sign of the divisor): fmod(-1, 3) = -1 but (-1) % 3 = 2"}),
+                          "_0 % _1": "sympy % is Mod (sign of the divisor): fmod(-1, 3) = -1 but (-1) % 3 = 2",
+                          "sympy.sign(_0) * sympy.Mod(sympy.Abs(_0), _1)": "Mod takes the sign of its divisor: fmod(5.5, -2) = 1.5 but sign(5.5)*Mod(5.5, -2) = -0.5",
+                          "sympy.Mod(sympy.Abs(_0), _1) * sympy.sign(_0)": "Mod takes the sign of its divisor: fmod(5.5, -2) = 1.5 but Mod(5.5, -2)*sign(5.5) = -0.5",
+                          "sympy.sign(_0) * sympy.Mod(_0, sympy.Abs(_1))": "Mod(a, |b|) is non-negative: fmod(-1, 3) = -1 but sign(-1)*Mod(-1, 3) = -2"}),
     "OP_FABS": row("absolute value", "sympy.Abs(_0)"),
     "OP_SIGN": unary_fn("sign", "sign with sign(0) = 0 in both libraries"),
     "OP_COPYSIGN": row("|dep(0)| with the sign of dep(1); no exact total sympy form known to this table", multi=True),
@@ -820,6 +823,49 @@ def const_leaf(cx, inst, expr, want, node):
         cx.rep.incomplete("C19.leaf", inst, "returns %s, not a literal" % U(expr), where=cx.at(node))
 
 
+def cse_order(cx_w, rep):
+    """cse=True path: sympy.cse returns definitions in dependency order (a later one may use an earlier one); the
+    converted expression must therefore be substituted last-definition-first.  The effective order is the direction
+    of the loop that builds the substitution map composed with the direction of the loop that applies it."""
+    import ast as _ast
+    fn = cx_w.fe.find_def(REL, "_sympy_parser")
+    branch = None
+    for st in fn.body:
+        if isinstance(st, _ast.If) and isinstance(st.test, _ast.Name) and st.test.id == "cse":
+            branch = st
+    R = "C19.cse"
+    if branch is None:
+        rep.na(R, "_sympy_parser cse path", "no `if cse:` branch")
+        return
+    loops = [n for n in branch.body if isinstance(n, _ast.For)]
+
+    def direction(it):
+        if isinstance(it, _ast.Call) and isinstance(it.func, _ast.Name) and it.func.id == "reversed":
+            return True, it.args[0] if it.args else None
+        return False, it
+    build = apply_ = None
+    for lp in loops:
+        rev, base = direction(lp.iter)
+        body_src = " ".join(_ast.unparse(x) for x in lp.body)
+        if "substitute" in body_src:
+            apply_ = (rev, base, lp)
+        elif "prs(" in body_src and ("[" in body_src):
+            build = (rev, base, lp)
+    if build is None or apply_ is None:
+        rep.incomplete(R, "_sympy_parser cse path: substitution order", "cannot find the loop that builds the substitution map and the loop that applies ca.substitute", where=(REL, branch.lineno))
+        return
+    base_ok = isinstance(build[1], _ast.Name) and build[1].id == "cse_defs"
+    app_base = apply_[1]
+    over_map = isinstance(app_base, _ast.Call) and isinstance(app_base.func, _ast.Attribute) and app_base.func.attr == "items"
+    if not base_ok or not over_map:
+        rep.incomplete(R, "_sympy_parser cse path: substitution order", "unrecognised iteration (%s / %s)" % (_ast.unparse(build[2].iter), _ast.unparse(apply_[2].iter)), where=(REL, build[2].lineno))
+        return
+    net_reversed = build[0] != apply_[0]
+    rep.check(R, "_sympy_parser cse path: definitions are substituted last-first", net_reversed,
+              "sympy.cse temporaries are substituted first-definition-first: a temporary that is used by a later temporary is re-introduced after it was eliminated and stays in the result as a free symbol",
+              where=(REL, build[2].lineno), fact={"build": _ast.unparse(build[2].iter), "apply": _ast.unparse(apply_[2].iter)})
+
+
 # ------------------------------------------------------------------ entry point
 def run(w, rep, tier):
     rep.rule("C19.dispatch", "each dispatch chain tests every opcode/type at most once and ends in an else that raises")
@@ -832,9 +878,11 @@ def run(w, rep, tier):
     rep.rule("C19.symtab", "symbol tables are lookup-before-create and return the stored object")
     rep.rule("C19.matrix", "matrix branches copy element (i, j) to (i, j) (column-major linear index on the CasADi side)")
     rep.rule("C19.plumb", "recursion forwards the operands in order and the caller's own tables")
+    rep.rule("C19.cse", "cse=True path: the sympy.cse temporaries are eliminated in reverse definition order")
     cx = Ctx(w, rep)
     casadi_side(cx)
     sympy_side(cx)
+    cse_order(w, rep)
     rep.floor("C19.table", 34)
     rep.floor("C19.dispatch", 110)
     rep.floor("C19.leaf", 8)
@@ -845,6 +893,6 @@ def run(w, rep, tier):
     rep.floor("C19.plumb", 8)
     rep.floor("C19.fmap", 1)
     rep.undecided_clause("value preservation for arbitrary expression trees (round trip through both libraries): needs running sympy and CasADi")
-    rep.undecided_clause("the cse=True path of _sympy_parser (substitution order of sympy.cse temporaries and their removal from the symbol table)")
+    rep.undecided_clause("the cse=True path of _sympy_parser beyond the substitution order (removal of the temporaries from the symbol table)")
     rep.undecided_clause("agreement at NaN/inf, at branch cuts of pow/log/inverse trigonometric functions, and float vs exact arithmetic of constants")
     rep.undecided_clause("arity of user-supplied function-map entries (only the first argument is forwarded)")
